@@ -61,7 +61,12 @@ type env struct {
 	firstOp atomic.Value
 }
 
-func newEnv(kind string, queue int) *env {
+func newEnv(kind string, queue int, ownMIDStart ...int) *env {
+	// the connection's own message IDs start right after ownStart (default 30000)
+	ownStart := 30000
+	if len(ownMIDStart) > 0 {
+		ownStart = ownMIDStart[0]
+	}
 	e := &env{kind: kind, processed: map[uint64]int{}, runs: map[string]int{}}
 	e.mid.Store(100)
 	logic := func(code codes.Code, body []byte, get func(ctx context.Context, path string) ([]byte, error), respond func(code codes.Code, payload []byte)) {
@@ -120,7 +125,7 @@ func newEnv(kind string, queue int) *env {
 		cc = sim.NewUDPConn(s, sim.UDPOpts{
 			Mutate: func(cfg *udpclient.Config) {
 				cfg.ReceivedMessageQueueSize = queue
-				cfg.GetMID = func() int32 { return int32((30000 + 0xffff/2) & 0xffff) }
+				cfg.GetMID = func() int32 { return int32((ownStart + 0xffff/2) & 0xffff) }
 				cfg.ProcessReceivedMessage = func(req *pool.Message, c *udpclient.Conn, h config.HandlerFunc[*udpclient.Conn]) {
 					e.mu.Lock()
 					e.processed[req.Sequence()]++
@@ -371,6 +376,8 @@ type ccase struct {
 	NonGets   bool   `json:"own_requests_non_confirmable,omitempty"`
 	PingFirst bool   `json:"handlers_ping_the_peer_first,omitempty"`
 	FirstOp   string `json:"handlers_first_blocking_operation,omitempty"`
+	// MIDEdge: the peer's first request carries message ID 65535 while the connection's own next message ID is 0
+	MIDEdge bool `json:"peer_mid_65535_own_mid_0,omitempty"`
 }
 
 // pureServer: handlers return at once, nothing else happens: exactly once, in arrival order.
@@ -431,8 +438,15 @@ func pureServer(rec *vr.Rec, c ccase, rnd *rand.Rand) {
 // nested: requests whose handlers block in nested requests to depth d, external callers,
 // duplicates queued behind a waiting handler.
 func nested(rec *vr.Rec, c ccase, rnd *rand.Rand) {
-	e := newEnv(c.Kind, c.Queue)
+	ownStart := 30000
+	if c.MIDEdge {
+		ownStart = 65535
+	}
+	e := newEnv(c.Kind, c.Queue, ownStart)
 	defer e.closef()
+	if c.MIDEdge {
+		e.mid.Store(65534)
+	}
 	e.nonGets.Store(c.NonGets)
 	e.pingFirst.Store(c.PingFirst)
 	e.firstOp.Store(c.FirstOp)
@@ -467,7 +481,9 @@ func nested(rec *vr.Rec, c ccase, rnd *rand.Rand) {
 		}(g)
 	}
 	total := 0
-	first := e.request(fmt.Sprintf("nest:%d", c.Depth), c.Kind != "udp" || !c.OwnMID)
+	// (a confirmable request whose message ID is close to the connection's own counter makes the connection move its counter
+	// away; the coincidences under test need a non-confirmable outer request)
+	first := e.request(fmt.Sprintf("nest:%d", c.Depth), c.Kind != "udp" || !(c.OwnMID || c.MIDEdge))
 	p.reqs[c.Depth] = first
 	e.inject(first)
 	total++
@@ -629,6 +645,8 @@ func TestRun(t *testing.T) {
 						cases = append(cases, ccase{Workload: "nested", Kind: kind, Queue: q, Depth: depth, N: rnd.Intn(5), Dups: dups, Clients: rnd.Intn(2)})
 					}
 					cases = append(cases, ccase{Workload: "nested", Kind: kind, Queue: q, Depth: depth, N: rnd.Intn(5), OwnMID: true})
+					cases = append(cases, ccase{Workload: "nested", Kind: kind, Queue: q, Depth: depth, N: rnd.Intn(5), MIDEdge: true})
+					cases = append(cases, ccase{Workload: "nested", Kind: kind, Queue: q, Depth: depth, N: rnd.Intn(5), MIDEdge: true, NonGets: true})
 					for rep := 0; rep < vr.Scale(2, 30); rep++ {
 						cases = append(cases, ccase{Workload: "nested", Kind: kind, Queue: q, Depth: depth, N: rnd.Intn(21), Clients: rnd.Intn(3), NonGets: true})
 					}
